@@ -1,0 +1,46 @@
+//go:build verif
+// +build verif
+
+// Contracts for the deductive verifier in /verif (govc). Comment-only: no executable code.
+package remote
+
+//@ const innerFC = m.FlowControl
+//@ const staleAnswer = old(acquireResult.requestTime) > 0 && old(acquireResult.requestTime) <= old(m.lastAcquireTime)
+//@ const hasError = len(old(acquireResult.result.Error)) != 0
+//@ const tooOld = old(acquireResult.result.Error) == "RequestIDTooOld"
+
+//@ func (*maxInflightWrapper).SetLimit props C09
+//@   requires [wf] acquireResult != nil && acquireResult.result != nil && m.fcc != nil && m.fcc.local != nil && m.fcc.local.localConfig.MaxRequestsInflight != nil && m.meter != nil && m.cond != nil
+//@   requires [limits] 0 <= m.max && 0 <= m.reserve && 0 <= m.meter.inflightMax && m.serverUnavailable <= 1 && 0 <= m.fcc.local.localConfig.MaxRequestsInflight.Max
+//@   modifies m.serverUnavailable, m.overLimited, m.acquiredMaxInflight, m.lastAcquireTime, fcsize[m.FlowControl], fcburst[m.FlowControl], *
+//@   ensures [stale] staleAnswer ==> fcsize == old(fcsize) && m.serverUnavailable == old(m.serverUnavailable) && m.acquiredMaxInflight == old(m.acquiredMaxInflight)
+//@   ensures [too_old] !staleAnswer && hasError && tooOld ==> fcsize == old(fcsize) && m.serverUnavailable == old(m.serverUnavailable)
+//@   ensures [error_fallback] !staleAnswer && hasError && !tooOld && old(m.serverUnavailable) == 0 ==> fcsize[old(innerFC)] == max(old(m.meter.inflightMax), old(m.fcc.local.localConfig.MaxRequestsInflight.Max)) && m.serverUnavailable == 1
+//@   ensures [error_once] !staleAnswer && hasError && !tooOld && old(m.serverUnavailable) != 0 ==> fcsize == old(fcsize)
+//@   ensures [accept_clamped] !staleAnswer && !hasError && old(acquireResult.result.Accept) ==> fcsize[old(innerFC)] <= old(m.max) && fcsize[old(innerFC)] >= min(old(m.reserve), old(m.max)) && m.serverUnavailable == 0
+//@   ensures [accept_applied] !staleAnswer && !hasError && old(acquireResult.result.Accept) && old(m.reserve) <= old(acquireResult.result.Limit) && old(acquireResult.result.Limit) <= old(m.max) ==> fcsize[old(innerFC)] == old(acquireResult.result.Limit)
+//@   ensures [refuse_le_max] !staleAnswer && !hasError && !old(acquireResult.result.Accept) ==> 0 <= fcsize[old(innerFC)] && fcsize[old(innerFC)] <= old(m.max)
+
+//@ interface (GlobalCounterFlowControl).Resize(f, n, burst) props C09
+//@   modifies fcsize[f], fcburst[f]
+//@   ensures fcsize[f] == n && fcburst[f] == burst
+//@ interface (GlobalCounterFlowControl).Type(f) props C09
+//@   pure-def fcTypeOf(f)
+//@ interface (GlobalCounterFlowControl).String(f) props C09
+//@   pure
+
+//@ const localCfg = f.flowControlCache.local.localConfig
+
+//@ func (*remoteWrapper).Sync props C09
+//@   requires [wf] f.flowControlCache != nil && f.flowControlCache.local != nil
+//@   requires [globals] (localCfg.GlobalMaxRequestsInflight != nil ==> localCfg.GlobalMaxRequestsInflight.Max >= 0) && (localCfg.GlobalTokenBucket != nil ==> localCfg.GlobalTokenBucket.QPS >= 0)
+//@   modifies *
+//@   ensures [inflight_clamped] old(f.GlobalCounterFlowControl) != nil && f.GlobalCounterFlowControl == old(f.GlobalCounterFlowControl) && old(limitItem.MaxRequestsInflight) != nil && fcTypeOf(old(f.GlobalCounterFlowControl)) == "MaxRequestsInflight" && old(localCfg.GlobalMaxRequestsInflight) != nil && fcsize[f.GlobalCounterFlowControl] != old(fcsize[f.GlobalCounterFlowControl]) ==> 0 <= fcsize[f.GlobalCounterFlowControl] && fcsize[f.GlobalCounterFlowControl] <= old(localCfg.GlobalMaxRequestsInflight.Max)
+//@   ensures [qps_clamped] old(f.GlobalCounterFlowControl) != nil && f.GlobalCounterFlowControl == old(f.GlobalCounterFlowControl) && old(limitItem.MaxRequestsInflight) == nil && old(limitItem.TokenBucket) != nil && fcTypeOf(old(f.GlobalCounterFlowControl)) == "TokenBucket" && old(localCfg.GlobalTokenBucket) != nil && fcsize[f.GlobalCounterFlowControl] != old(fcsize[f.GlobalCounterFlowControl]) ==> 0 <= fcsize[f.GlobalCounterFlowControl] && fcsize[f.GlobalCounterFlowControl] <= old(localCfg.GlobalTokenBucket.QPS)
+
+//@ func clampLimitItem props C09
+//@   modifies nothing
+//@   ensures [inflight] limitItem.MaxRequestsInflight != nil && local.GlobalMaxRequestsInflight != nil && local.GlobalMaxRequestsInflight.Max >= 0 ==> result.MaxRequestsInflight != nil && 0 <= result.MaxRequestsInflight.Max && result.MaxRequestsInflight.Max <= local.GlobalMaxRequestsInflight.Max && result.MaxRequestsInflight.Max <= max(0, old(limitItem.MaxRequestsInflight.Max))
+//@   ensures [inflight_kept] limitItem.MaxRequestsInflight != nil && local.GlobalMaxRequestsInflight != nil && 0 <= old(limitItem.MaxRequestsInflight.Max) && old(limitItem.MaxRequestsInflight.Max) <= local.GlobalMaxRequestsInflight.Max ==> result.MaxRequestsInflight.Max == old(limitItem.MaxRequestsInflight.Max)
+//@   ensures [qps] limitItem.MaxRequestsInflight == nil && limitItem.TokenBucket != nil && local.GlobalTokenBucket != nil && local.GlobalTokenBucket.QPS >= 0 ==> result.TokenBucket != nil && 0 <= result.TokenBucket.QPS && result.TokenBucket.QPS <= local.GlobalTokenBucket.QPS && result.TokenBucket.Burst == old(limitItem.TokenBucket.Burst)
+//@   ensures [rest] result.Name == limitItem.Name && result.Strategy == limitItem.Strategy
